@@ -19,6 +19,11 @@
 // by the compiler and is not a case. Phase B (worker subprocesses): the files of a batch of cases are
 // written into one scratch module and `go build ./...` compiles every package of it.
 //
+// Phase R: grammars that carry "#! run <input> => <records>" directives (semantic actions over typed
+// symbols referenced by value and by location in every order) are also linked with the standard
+// driver of internal/genharness and run: every input must be accepted and the actions must record
+// exactly the stated values and offsets.
+//
 // Oracle: no worker death / panic / log.Fatal; gen.Generate returns nil; the generated packages (all of
 // them: root, token, ast, selector) compile. With C17_VET=1 `go vet` also runs on the cases that build
 // and its diagnostics are recorded as coverage only (the property says "build"; the two classes seen
@@ -135,9 +140,19 @@ type featGrammar struct {
 	Text    string
 	PinMask uint32 // options fixed by the grammar
 	PinVal  uint32
+	Runs    []runCase // inputs to run on the built parser and what the semantic actions must record
+}
+
+// runCase is one "#! run <input> => <record> | <record>" directive: the semantic actions of the
+// grammar call "scratch/rt".Record; parsing Input from the (only) input nonterminal must succeed and
+// record exactly Want, in order.
+type runCase struct {
+	Input string   `json:"input"`
+	Want  []string `json:"want"`
 }
 
 var pinRE = regexp.MustCompile(`(?m)^#! pin (\w+)=(true|false)\s*$`)
+var runRE = regexp.MustCompile(`(?m)^#! run (.*?) => (.*?)\s*$`)
 
 func loadGrammars() []*featGrammar {
 	entries, err := grammarFS.ReadDir("grammars")
@@ -162,6 +177,13 @@ func loadGrammars() []*featGrammar {
 			if m[2] == "true" {
 				g.PinVal |= 1 << uint(i)
 			}
+		}
+		for _, m := range runRE.FindAllStringSubmatch(g.Text, -1) {
+			rc := runCase{Input: m[1]}
+			for _, w := range strings.Split(m[2], " | ") {
+				rc.Want = append(rc.Want, strings.TrimSpace(w))
+			}
+			g.Runs = append(g.Runs, rc)
 		}
 		if !strings.Contains(g.Text, "@NAME@") || !strings.Contains(g.Text, "@OPTIONS@") {
 			panic("grammar " + n + " lacks @NAME@/@OPTIONS@")
@@ -685,8 +707,10 @@ func buildKeys(buildErr, name string) []string {
 //	source "enum" (the plan of the tier) or a JSON file [{"name":..,"tm":..}] (replay)
 
 type fileCase struct {
-	Desc string `json:"desc"`
-	TM   string `json:"tm"` // with @NAME@ placeholders
+	Desc    string    `json:"desc"`
+	Grammar string    `json:"grammar,omitempty"`
+	TM      string    `json:"tm"` // with @NAME@ placeholders
+	Runs    []runCase `json:"runs,omitempty"`
 }
 
 type source struct {
@@ -723,6 +747,15 @@ func (s *source) tm(idx int) string {
 		return s.p.grammars[cr.G].tm(name, cr.Mask)
 	}
 	return strings.ReplaceAll(s.files[idx].TM, "@NAME@", name)
+}
+
+// runs returns the grammar name and the run directives of case idx.
+func (s *source) runs(idx int) (string, []runCase) {
+	if s.p != nil {
+		g := s.p.grammars[s.p.cases[idx].G]
+		return g.Name, g.Runs
+	}
+	return s.files[idx].Grammar, s.files[idx].Runs
 }
 
 func (s *source) desc(idx int) string {
@@ -824,6 +857,14 @@ func buildAll(specs []buildSpec, vet bool) ([]record, error) {
 	}
 	defer os.RemoveAll(dir)
 	if err := os.WriteFile(filepath.Join(dir, "go.mod"), []byte("module scratch\n\ngo 1.25\n"), 0o644); err != nil {
+		return nil, err
+	}
+	// semantic actions of the action-reference grammars call "scratch/rt".Record; a stub is enough to
+	// compile them (the run phase uses the real runtime of internal/genharness)
+	if err := os.MkdirAll(filepath.Join(dir, "rt"), 0o755); err != nil {
+		return nil, err
+	}
+	if err := os.WriteFile(filepath.Join(dir, "rt", "rt.go"), []byte("package rt\n\nfunc Record(format string, args ...any) {}\n"), 0o644); err != nil {
 		return nil, err
 	}
 	recs := make([]record, len(specs))
@@ -1013,6 +1054,92 @@ func worker(w *core.Worker) {
 			}
 			w.Flush()
 		}
+	case "run":
+		// the list file holds case indices; every case is generated, built (genharness.RunBatch with
+		// its standard in-package driver) and the grammar's run directives are fed to the parser
+		var list []int
+		data, err := os.ReadFile(w.Args[2])
+		if err != nil {
+			panic(err)
+		}
+		if err := json.Unmarshal(data, &list); err != nil {
+			panic(err)
+		}
+		const runBatch = 12
+		var mine []int
+		for k := range list {
+			if w.Mine(k) {
+				mine = append(mine, k)
+			}
+		}
+		for start := 0; start < len(mine); start += runBatch {
+			end := min(start+runBatch, len(mine))
+			var specs []genharness.Spec
+			for _, k := range mine[start:end] {
+				idx := list[k]
+				_, runs := src.runs(idx)
+				var cases []genharness.Case
+				for _, rc := range runs {
+					cases = append(cases, genharness.Case{Mode: "parse", Text: rc.Input})
+				}
+				specs = append(specs, genharness.Spec{Name: caseName(idx), TM: src.tm(idx), Cases: cases})
+			}
+			desc := fmt.Sprintf("run batch of %d starting with %s", end-start, src.desc(list[mine[start]]))
+			w.Case(mine[start], desc)
+			stop, stopped := make(chan struct{}), make(chan struct{})
+			go func() {
+				defer close(stopped)
+				t := time.NewTicker(30 * time.Second)
+				defer t.Stop()
+				for n := 0; n < 30; n++ {
+					select {
+					case <-stop:
+						return
+					case <-t.C:
+						w.Case(mine[start], desc)
+					}
+				}
+			}()
+			outs, err := genharness.RunBatch(specs, genharness.BatchOpts{})
+			close(stop)
+			<-stopped
+			for bi, k := range mine[start:end] {
+				idx := list[k]
+				gname, runs := src.runs(idx)
+				r := record{T: "r", Idx: idx, St: "ok", Files: len(runs)}
+				switch {
+				case err != nil:
+					r.St, r.Err = "harness", trimTo(err.Error(), 1000)
+				case outs[bi].GenErr != "" || outs[bi].GenPanic != "" || outs[bi].BuildErr != "":
+					// reported by the generation / build phases
+					r.St, r.Err = "not-built", trimTo(outs[bi].GenErr+outs[bi].GenPanic+outs[bi].BuildErr, 600)
+				case len(outs[bi].Results) != len(runs):
+					r.St, r.Err = "harness", "no results from the driver"
+				default:
+					for j, rc := range runs {
+						res := outs[bi].Results[j]
+						tag := strings.Fields(rc.Want[0] + " ?")[0]
+						class := ""
+						switch {
+						case res.Panic != "" || res.Hang || res.Aborted:
+							class = "parser-crash-or-hang"
+						case !res.Accept:
+							class = "input-rejected"
+						case strings.Join(res.Values, " | ") != strings.Join(rc.Want, " | "):
+							class = "action-observes-wrong-values"
+						}
+						if class != "" {
+							r.St = "mismatch"
+							r.Key = "run:" + class + ":" + gname + ":" + tag
+							r.What = fmt.Sprintf("input %q: semantic actions recorded [%s], expected [%s] (accept=%v erroff=%d panic=%q)", rc.Input, strings.Join(res.Values, " | "), strings.Join(rc.Want, " | "), res.Accept, res.ErrOff, trimTo(res.Panic, 300))
+							break
+						}
+					}
+				}
+				w.Emit(r)
+			}
+			w.Flush()
+		}
 	default:
 		fmt.Fprintln(os.Stderr, "worker: unknown phase", phase)
 		os.Exit(2)
@@ -1023,9 +1150,10 @@ func worker(w *core.Worker) {
 // Parent.
 
 type replayCase struct {
-	Grammar string   `json:"grammar"`
-	Options []string `json:"options"`
-	TM      string   `json:"tm"` // @NAME@ = package name placeholder
+	Grammar string    `json:"grammar"`
+	Options []string  `json:"options"`
+	TM      string    `json:"tm"` // @NAME@ = package name placeholder
+	Runs    []runCase `json:"runs,omitempty"`
 }
 
 type violations struct {
@@ -1127,7 +1255,7 @@ func run(c *core.Ctx) {
 	rcOf := func(idx int) replayCase {
 		cr := p.cases[idx]
 		g := p.grammars[cr.G]
-		return replayCase{Grammar: g.Name, Options: optionLines(cr.Mask), TM: g.tm("@NAME@", cr.Mask)}
+		return replayCase{Grammar: g.Name, Options: optionLines(cr.Mask), TM: g.tm("@NAME@", cr.Mask), Runs: g.Runs}
 	}
 
 	var vs violations
@@ -1215,12 +1343,68 @@ func run(c *core.Ctx) {
 	c.Set("generator_features_seen", featSeen)
 	c.Set("distinct_outputs", len(reps))
 
-	// ---- phase B: build one representative per distinct output
 	dir, err := os.MkdirTemp("", "verif-c17-")
 	if err != nil {
 		panic(err)
 	}
 	defer os.RemoveAll(dir)
+
+	// ---- phase R: run the grammars that carry "#! run" directives (a handful of cases: the first
+	// rows of each such grammar in which the standard driver can parse, i.e. genParser on and
+	// tokenStream off) and compare what their semantic actions record
+	const runRowsPerGrammar = 6
+	var runList []int
+	perG := map[int]int{}
+	for i := 0; i < done && i < p.quickN; i++ {
+		cr := p.cases[i]
+		if info[i].st != "ok" || len(p.grammars[cr.G].Runs) == 0 || perG[cr.G] >= runRowsPerGrammar {
+			continue
+		}
+		if !bit(cr.Mask, optIndex("genParser")) || bit(cr.Mask, optIndex("tokenStream")) {
+			continue
+		}
+		perG[cr.G]++
+		runList = append(runList, i)
+	}
+	if len(runList) > 0 {
+		runFile := filepath.Join(dir, "run.json")
+		data, _ := json.Marshal(runList)
+		os.WriteFile(runFile, data, 0o644)
+		ran := 0
+		c.RunShards(core.ShardOpts{
+			N:       2,
+			Args:    []string{"run", "enum", runFile},
+			Silence: 300 * time.Second,
+			OnRecord: func(shard int, raw json.RawMessage) {
+				var r record
+				if json.Unmarshal(raw, &r) != nil || r.T != "r" {
+					return
+				}
+				switch r.St {
+				case "ok":
+					ran++
+					c.Outcome("run: actions observe the expected values", int64(r.Files))
+					c.Traces(int64(r.Files))
+				case "mismatch":
+					ran++
+					c.Outcome("run: mismatch", 1)
+					vs.add(r.Idx, r.Key, r.What, rcOf(r.Idx), 1)
+				case "not-built":
+					c.Outcome("run: not built (see build phase)", 1)
+				default:
+					c.Capped("harness failure in the run phase: " + trimTo(r.Err, 300))
+				}
+			},
+			OnDeath: func(k int, desc, how, tail string) {
+				idx := runList[k]
+				vs.add(idx, "run-phase:"+deathKey(how, tail), fmt.Sprintf("worker died in the run phase (%s): %s\n%s", how, desc, trimTo(tail, 1500)), rcOf(idx), 1)
+			},
+		})
+		c.Set("run_phase_cases", len(runList))
+		c.Set("run_phase_cases_executed", ran)
+	}
+
+	// ---- phase B: build one representative per distinct output
 	listFile := filepath.Join(dir, "list.json")
 	data, _ := json.Marshal(reps)
 	os.WriteFile(listFile, data, 0o644)
@@ -1316,7 +1500,7 @@ func replay(c *core.Ctx, raw json.RawMessage) error {
 	}
 	defer os.RemoveAll(dir)
 	srcFile := filepath.Join(dir, "cases.json")
-	data, _ := json.Marshal([]fileCase{{Desc: rc.Grammar + " [" + strings.Join(rc.Options, ", ") + "]", TM: rc.TM}})
+	data, _ := json.Marshal([]fileCase{{Desc: rc.Grammar + " [" + strings.Join(rc.Options, ", ") + "]", Grammar: rc.Grammar, TM: rc.TM, Runs: rc.Runs}})
 	os.WriteFile(srcFile, data, 0o644)
 	listFile := filepath.Join(dir, "list.json")
 	os.WriteFile(listFile, []byte("[0]"), 0o644)
@@ -1358,6 +1542,26 @@ func replay(c *core.Ctx, raw json.RawMessage) error {
 			},
 			OnDeath: func(idx int, desc, how, tail string) {
 				fails = append(fails, "build-phase:"+deathKey(how, tail))
+			},
+		})
+	}
+	opts := strings.Join(rc.Options, "\n")
+	if ok && len(fails) == 0 && len(rc.Runs) > 0 && !strings.Contains(opts, "tokenStream = true") && !strings.Contains(opts, "genParser = false") {
+		c.RunShards(core.ShardOpts{
+			N: 1, Args: []string{"run", srcFile, listFile}, Confirm: 1, Silence: 300 * time.Second,
+			OnRecord: func(shard int, raw json.RawMessage) {
+				var r record
+				if json.Unmarshal(raw, &r) != nil || r.T != "r" {
+					return
+				}
+				if r.St == "mismatch" {
+					fails = append(fails, r.Key+": "+r.What)
+				} else if r.St != "ok" {
+					fails = append(fails, "run phase: "+r.St+": "+r.Err)
+				}
+			},
+			OnDeath: func(idx int, desc, how, tail string) {
+				fails = append(fails, "run-phase:"+deathKey(how, tail))
 			},
 		})
 	}
